@@ -7,6 +7,7 @@ mod core;
 mod forge;
 mod node;
 mod props;
+mod sched;
 mod universe;
 mod world;
 mod zoo;
